@@ -106,6 +106,9 @@ POOL = [
     ('glob', '**/*.txt', 'GLOBSTAR|DOTGLOB', 't1'),
     ('glob', ['*.txt', 'x.*'], 'IGNORECASE', 't1'),
     ('pathlib.match', '*.txt', '', 'd/x.txt'),
+    ('glob.tilde', '~/x.*', 'GLOBTILDE|REALPATH', 'absent'),
+    ('glob.tilde', '~/x.*', 'GLOBTILDE|REALPATH', 'present'),
+    ('glob.tilde', b'~/x.*', 'GLOBTILDE|REALPATH', 'present'),
     ('wcmatch', '*.txt', 'RECURSIVE', 't1'),
     ('FLOOD', None, '', None),
 ]
@@ -135,6 +138,27 @@ def execute(t):
                 os.chdir(cwd)
         if kind == 'glob':
             return sorted(G.glob(patt, flags=_fl(G, fs), root_dir=roots()[arg]))
+        if kind == 'glob.tilde':
+            # the home directory (HOME points into the scratch area) exists or not at the moment of the call
+            home = os.path.join(roots()['__base__'], 'home')
+            old = os.environ.get('HOME')
+            os.environ['HOME'] = home
+            try:
+                if arg == 'present':
+                    os.makedirs(home, exist_ok=True)
+                    open(os.path.join(home, 'x.txt'), 'w').close()
+                else:
+                    shutil.rmtree(home, ignore_errors=True)
+                got = G.glob(patt, flags=_fl(G, fs))
+                ok = G.globmatch(os.path.join(home, 'x.txt') if isinstance(patt, str) else os.fsencode(os.path.join(home, 'x.txt')),
+                                 patt, flags=_fl(G, fs))
+                rel = [os.path.relpath(x, os.fsencode(roots()['__base__']) if isinstance(x, bytes) else roots()['__base__']) for x in got]
+                return run.jsonable({'glob': sorted(rel), 'globmatch_home_file': ok})
+            finally:
+                if old is None:
+                    os.environ.pop('HOME', None)
+                else:
+                    os.environ['HOME'] = old
         if kind == 'pathlib.match':
             return WP.PurePosixPath(arg).match(patt, flags=_fl(WP, fs) if fs else 0)
         if kind == 'wcmatch':
@@ -429,7 +453,7 @@ def check_objects(sh, ns, res):
 # ---------------------------------------------------------------- planning
 
 LINE_SUB = [0, 1, 3, 8, 15]           # cheap pure-matching calls: every line-level preemption
-WALKERS = ('glob', 'wcmatch', 'globmatch.real', 'pathlib.match')
+WALKERS = ('glob', 'wcmatch', 'globmatch.real', 'pathlib.match', 'glob.tilde')
 
 
 def plan(tier, seed):
